@@ -90,6 +90,8 @@ def enumerate_scripts(sc, limit):
         obs = S.run_scenario(sc2)
         runs += 1
         yield sc2, obs
+        if "skipped" in obs:
+            return
         tr = obs["script_trace"]
         # children: for every decision position at or after len(dec), alternatives to the default 0
         for posn in range(len(dec), len(tr)):
@@ -118,6 +120,9 @@ def run_S(pid, tier, seed, cp_mode="real", props_monitored=None, extra_fail_sig=
     kept = {}
 
     def one(sid, sc, obs):
+        if "skipped" in obs:
+            facts_total["skipped"] = facts_total.get("skipped", 0) + 1
+            return
         V, f = S.monitors(sc, obs)
         facts_total["evaluations"] += 1
         facts_total["outcomes"][obs["outcome"][0]] += 1
@@ -137,13 +142,24 @@ def run_S(pid, tier, seed, cp_mode="real", props_monitored=None, extra_fail_sig=
         if len(samples) < 3:
             samples.append(dict(scenario=sc, protocol=text.splitlines()))
 
+    hung = False
     for k, sc in scenario_stream(seed, B["s_runs"], pid):
-        one("r%s" % k, sc, S.run_scenario(sc))
-    for k, sc in small_scenarios(seed, B["s_enum"]):
+        obs = S.run_scenario(sc, timeout=15)
+        one("r%s" % k, sc, obs)
+        if obs.get("outcome", ("",))[0] == "hang":
+            hung = True   # a stuck scheduler thread cannot be killed and may spin: stop exploring here
+            break
+    for k, sc in ([] if hung else small_scenarios(seed, B["s_enum"])):
         facts_total["enumerated_scenarios"] += 1
         for j, (sc2, obs) in enumerate(enumerate_scripts(sc, 60 if tier == "quick" else 400)):
             facts_total["enumerated_runs"] += 1
             one("e%d_%d" % (k, j), sc2, obs)
+            if obs.get("outcome", ("",))[0] == "hang":
+                hung = True
+                break
+        if hung:
+            break
+    facts_total["stopped_at_first_hang"] = hung
 
     out = common.run_driver("Sched", "".join(blocks))
     seen = set()
@@ -178,16 +194,22 @@ def run_S(pid, tier, seed, cp_mode="real", props_monitored=None, extra_fail_sig=
         with_selection=facts_total["with_selection"], async_flavour=facts_total["is_async"],
         nodes_histogram=facts_total["nodes_hist"], monitor_hits_all_properties=facts_total["monitor_hits"],
         exhaustively_enumerated_scenarios=facts_total["enumerated_scenarios"],
-        exhaustively_enumerated_runs=facts_total["enumerated_runs"], cp_fed_to_model=cp_mode)
+        exhaustively_enumerated_runs=facts_total["enumerated_runs"], cp_fed_to_model=cp_mode,
+        stopped_at_first_hang=facts_total["stopped_at_first_hang"],
+        scenarios_skipped_executor_creation_raised=facts_total.get("skipped", 0))
 
     def searcher(unexplained):
         found = []
+        if facts_total["stopped_at_first_hang"]:
+            return found    # the process hosts a stuck scheduler thread: no further real runs are meaningful
         # 1. the rejected scenarios themselves: every completion order when small
         for f in unexplained[:20]:
             sc = f.scenario
             if not sc or sc["n"] > 6:
                 continue
             for sc2, obs in enumerate_scripts(sc, 300):
+                if "skipped" in obs:
+                    break
                 V, _ = S.monitors(sc2, obs)
                 for (p, sig, detail) in V:
                     if p in props_monitored:
@@ -197,6 +219,8 @@ def run_S(pid, tier, seed, cp_mode="real", props_monitored=None, extra_fail_sig=
         # 2. the random budget again under the monitors only
         for k, sc in scenario_stream(seed + 7919, B["s_runs"], pid, with_corpus=False):
             obs = S.run_scenario(sc)
+            if "skipped" in obs:
+                continue
             V, _ = S.monitors(sc, obs)
             for (p, sig, detail) in V:
                 if p in props_monitored:
@@ -267,8 +291,18 @@ COMMON_S_THEOREMS = ["Props.acceptor_sound"]
 
 reg("C02", ["Props.C02_deps_before_start", "Props.C01_core"] + COMMON_S_THEOREMS,
     lambda pid, tier, seed: run_S(pid, tier, seed), ASSUME_S)
-reg("C03", ["Props.C03_start_at_most_once", "Props.C03_exactly_once_at_done", "Props.C03_only_selected"] + COMMON_S_THEOREMS,
-    lambda pid, tier, seed: run_S(pid, tier, seed), ASSUME_S)
+def run_S_and_H(pid, tier, seed):
+    """C03 also quantifies over the position of the call in a history on one instance."""
+    cov, fs, searcher = run_S(pid, tier, seed)
+    covh, fsh, _ = run_H(pid, tier, seed)
+    cov["histories"] = {k: v for k, v in covh.items() if k not in ("samples", "rule")}
+    cov["evaluations"] += covh["evaluations"]
+    cov["rule"] += "; plus operation histories on one instance (slice H): " + covh["rule"]
+    return cov, fs + fsh, searcher
+
+
+reg("C03", ["Props.C03_start_at_most_once", "Props.C03_exactly_once_at_done", "Props.C03_only_selected",
+            "Props.C11_setup_at_most_once"] + COMMON_S_THEOREMS, run_S_and_H, ASSUME_S)
 reg("C04", ["Props.C04_inflight_le_maxc"] + COMMON_S_THEOREMS,
     lambda pid, tier, seed: run_S(pid, tier, seed),
     ASSUME_S + ["OS thread identity is observed by the harness (enter events), not modelled"])
@@ -528,6 +562,11 @@ def run_G(pid, tier, seed):
                                                     dict(case=m["case"], model=a, real=real), slice_="G"))
                     continue
                 model = ("SEL", sorted(int(x) for x in a[1:]))
+                if real[0] == "EXC":
+                    # the selection is valid (the model selects), the real code raised something else than ValueError
+                    failures.append(Failure("counterexample", "valid-selection-raised:" + real[1], sc,
+                                            dict(case=m["case"], real=real, model=model), slice_="G"))
+                    continue
                 if pid == "C12":    # "debug rules aside": compare the production part of the selection
                     dbgset = set(m.get("debug_nodes", []))
                     model = ("SEL", [x for x in model[1] if x not in dbgset])
@@ -870,6 +909,7 @@ reg("C10", ["Props.C01_core", "Props.C01_flat_partial"], run_V, ASSUME_V)
 import slice_h as H  # noqa: E402
 
 KINDS_H = {
+    "C03": ["call", "call", "exec", "exec", "setup", "setupsel", "fork"],
     "C11": ["call", "call", "exec", "setup", "setupsel", "fork"],
     "C15": ["call", "call", "call", "exec", "rerun", "rerun", "config", "compose", "setup"],
     "C18": ["cache", "cache", "call", "setup"],
@@ -990,8 +1030,10 @@ def run_H(pid, tier, seed):
                 sig = "H-entered-set"
                 kind = "correspondence"
                 extra = [i for i in ent if i not in m_ent]
-                if any(sc["specs"][i]["setup"] for i in extra) and pid == "C11":
+                if any(sc["specs"][i]["setup"] for i in extra) and pid in ("C11", "C03"):
                     kind, sig = "counterexample", "setup-node-ran-again"
+                elif pid == "C03":
+                    kind, sig = "counterexample", "entered-set-differs-from-selected-active-nodes"
                 failures.append(Failure(kind, sig, scen, dict(op=op, real=ent, model=m_ent), slice_="H"))
                 continue
             if op["op"] in ("call", "exec", "rerun", "cache", "restart") and outc[1] is not None:
